@@ -163,6 +163,9 @@ class Index:
             if k == 'ClassTemplateSpecializationDecl':
                 local += '<' + ', '.join(self._targs(n)) + '>'
             qn = '::'.join(scope + [local])
+            if nid in self.qual and local.endswith('<>'):
+                # the same specialisation dumped again in abbreviated form (no template arguments): keep the first name
+                qn = self.qual[nid]; local = qn[len('::'.join(scope)) + 2:] if scope and qn.startswith('::'.join(scope) + '::') else qn
             self.qual[nid] = qn
             if rec is not None: self.parent_rec[nid] = rec['id']
             if n.get('completeDefinition') and not in_pattern:
